@@ -638,6 +638,13 @@ CORPUS["C19"] += [
     E("balance test with isfinite", (SOLVER, "        if not abs(total_current) <= tolerance:\n", "        if not (np.isfinite(total_current) and abs(total_current) <= tolerance):\n")),
 ]
 
+# from the systematic mutation sweep (tools/mutation_sweep.py): survivors that were gaps
+CORPUS["C13"] += [
+    B("Polyak update reads velocity[1] instead of the latest velocity (right only in the first iteration of a step)", "R13.4",
+      (SOLVER, "        A_induced = A_induced + velocity[-1]\n", "        A_induced = A_induced + velocity[1]\n")),
+    E("velocity history trimmed to its last entry", (SOLVER, "            del velocity[:-2]\n", "            del velocity[:-1]\n")),
+]
+
 def _package_files():
     import ast as _ast
     from ..src import repo_root as _rr
